@@ -169,6 +169,7 @@ type GhostField struct {
 }
 type GhostVar struct {
 	Pkg, Name, GoType string
+	Counter           bool // bookkeeping counter: exempt from frame obligations (only contracts update it)
 }
 type AxiomDecl struct {
 	Pkg, Name string
@@ -512,7 +513,7 @@ func (p *parser) parseDecl(cs *ContractSet) error {
 				return err
 			}
 			cs.GFields = append(cs.GFields, GhostField{Pkg: p.pkg, Type: tn, Name: fn, GoType: ty})
-		case "var":
+		case "var", "counter":
 			n, err := p.ident()
 			if err != nil {
 				return err
@@ -521,9 +522,9 @@ func (p *parser) parseDecl(cs *ContractSet) error {
 			if err != nil {
 				return err
 			}
-			cs.GVars[n] = &GhostVar{Pkg: p.pkg, Name: n, GoType: ty}
+			cs.GVars[n] = &GhostVar{Pkg: p.pkg, Name: n, GoType: ty, Counter: kind == "counter"}
 		default:
-			return p.errf("ghost field|var expected")
+			return p.errf("ghost field|var|counter expected")
 		}
 		return nil
 	case "guarded_by":
